@@ -196,6 +196,28 @@ EXTRA3 = {
 }
 for k, v in EXTRA3.items():
     claimed[k]["text"] += v
+VOCAB = " Value menus are also derived from the vocabulary of the library's CURRENT sources (every string literal of the non-test files under pkg/, extracted at build time): word-like literals as written / lower / upper / title case, and the structural literals (searched for, split on, compared against) embedded in filler and concatenated up to three at a time."
+EXTRA4 = {
+ "C01": VOCAB + " Text attributes x that vocabulary; node identifiers = every concatenation of <=3 structural tokens that is a valid SPDX idstring, 150 per document.",
+ "C02": VOCAB + " Text attributes x that vocabulary; node identifiers = every such concatenation outside the reserved protobom-...-auto namespace, 150 per document.",
+ "C03": VOCAB + " Node identifiers = every such concatenation x 7 formats with the plain-JSON census.",
+ "C06": " Detection through the file entry points (SniffFile, ParseFile) on one path whose content changes between two calls (rewritten in place / replaced by rename; timestamps pinned to one instant or left to the clock; inputs of equal length in different formats), against SniffReader on the bytes now in the file.",
+ "C07": " A fully populated history document (every node field by reflection; packages and a file; persons with e-mail).",
+ "C08": " Library nodes that are the same software under two identifiers (equal hash and package URL).",
+ "C09": " Two edge objects of 17 / 33 / 65 destinations per list against small lists bringing one destination (present, of the other edge, new and sorting first / among / last).",
+ "C10": " The wide-edges family of C09.",
+ "C11": VOCAB + " One case per vocabulary value in every string place of every node of a fully populated document, the whole operation table run on it.",
+ "C12": " Contact chains nested 1..130 levels (around every power of two) under every copy / union / intersect view, an edit at every level.",
+ "C13": " Dates before 1970 with a fraction; nested collections with three entries each (compared within their family in the quick tier); contact chains nested 1..130 levels.",
+ "C14": " Dates before 1970 with a fraction; nested collections with three entries each; contact chains nested 1..130 levels.",
+ "C15": " Every recursive tree (parent function p(i)<i) on 4..7 (thorough 9) nodes x target order x edge-object order x back edge x roots x starts.",
+ "C16": " Lists with repeated node identifiers (nodes are named by position; the rule is asserted whenever the hash-matching nodes carry distinct identifiers).",
+ "C17": " Resets return shimmed atomics and sync.Maps to what the library's init functions stored (baseline), so a registry published through an atomic pointer is explored, not crashed.",
+ "C18": " Constructors called with unusual option values (nil, zero, negative, huge, empty, repeated), judged on their configuration at birth (two instances built the same way agree), followed by any step and a constructor.",
+ "C20": " Start states in which the entry is a symlink to a relocated file, has a second hard link outside the directory, or is a dangling symlink. The seam mirrors the whole os API.",
+}
+for k, v in EXTRA4.items():
+    claimed[k]["text"] += v
 
 checks = []
 for pid in all_ids:
